@@ -354,8 +354,11 @@ class FileCheck:
             return
         buckets = [int(b) for b in h.values("/Info/BucketNumbers")]
         sp = d["spacing_bins"] if len(c.currents) > 1 else 0
-        if any(b * sp + n > N for b in buckets):
-            return                      # padded buffer too short for the pattern: C17's finding, nothing to compare
+        # the transform length is the one the STORED impedance implies (twice its length).  main() sizes the wake
+        # impedance so that the whole train fits (C06_main_train_fits, C17); if the stored impedance is shorter than
+        # that, the only reading left is the cyclic one (positions modulo N) - evaluated like any other file, so a
+        # dataset that holds only part of the impedance in use shows up as a wake that is not this convolution
+        fits = all(b * sp + n <= N for b in buckets)
         scale = hc.f32(hc.f32(d["Ib"] * d["dt"] * hc.C_LIGHT / d["bl"] / (float(self.dp) * d["sE"] * d["E0"])) / N)
         cs = [math.cos(2 * math.pi * k / N) for k in range(N)]
         sn = [math.sin(2 * math.pi * k / N) for k in range(N)]
@@ -363,7 +366,7 @@ class FileCheck:
         if N > 2048:
             recs = [nrec - 1]
         for r in recs:
-            cells = [(buckets[b] * sp + x, prof[r * nb + b][x]) for b in range(nb) for x in range(n) if prof[r * nb + b][x] != 0]
+            cells = [((buckets[b] * sp + x) % N, prof[r * nb + b][x]) for b in range(nb) for x in range(n) if prof[r * nb + b][x] != 0]
             if not cells:
                 continue
             xr, xi = [0.0] * nh, [0.0] * nh
@@ -379,7 +382,7 @@ class FileCheck:
             exp, got = [], []
             for b in range(nb):
                 for x in range(0, n, step):
-                    i = buckets[b] * sp + x
+                    i = (buckets[b] * sp + x) % N
                     s = xr[0]
                     for j in range(1, nh):
                         k = (i * j) % N
@@ -392,10 +395,13 @@ class FileCheck:
             for e, g in zip(exp, got):
                 if abs(g - e) > 2e-3 * abs(e) + 3e-4 * mx:
                     self.bad("wake", "stored wake potential is not the convolution of the stored bunch profile with the stored impedance "
-                             "at the absolute scale implied by the stored parameters (record %d of %d)" % (r, nrec), observed=g, expected=e,
-                             final_record=(r == nrec - 1), multibunch=nb > 1)
+                             "at the absolute scale implied by the stored parameters (record %d of %d)%s" % (
+                                 r, nrec, "" if fits else "; the transform length 2*%d implied by the stored impedance cannot even hold "
+                                 "the bunch train (buckets %s, %d cells apart)" % (nh, buckets, sp)), observed=g, expected=e,
+                             final_record=(r == nrec - 1), multibunch=nb > 1, train_fits=fits)
                     break
             self.nontrivial = True
+            self.ctx.count("wake-record:%s" % ("several-buckets" if len(c.currents) > 1 else "one-bucket"))
 
     def nyquist(self, P_, S_, W):
         """estimate of the Nyquist bin of the spectrum from the stored profile and the last stored bins"""
